@@ -512,4 +512,19 @@ theorem allocd_of_new : ∀ (ops : List Op) (g : Ghost) (s : St) {a : Addr} {k :
       | root => simp only [gstep]; split <;> exact List.mem_cons_self
     · exact ih _ _ h
 
+/-- a history run by a fresh collector meets the program's obligations -/
+def WellFormed (ops : List Op) : Prop := WF Ghost.init St.init ops
+
+instance (ops : List Op) : Decidable (WellFormed ops) := by unfold WellFormed; infer_instance
+
+/-- collector state after the history -/
+def final (ops : List Op) : St := run Cfg.current St.init ops
+
+/-- program-side bookkeeping after the history: identities allocated, raw objects not yet `del_raw`ed, objects
+    allocated with `new`/`new_root` while the collector was stopped -/
+def ghost (ops : List Op) : Ghost := grun Ghost.init St.init ops
+
+theorem inv_final (ops : List Op) (h : WellFormed ops) : Inv (ghost ops) (final ops) :=
+  inv_run ops _ _ Inv.init h
+
 end Cello.Life
